@@ -62,23 +62,23 @@ theorem sliceN {s : Src} (hcr : NoCR s) {p1 start stop : Nat} {nb : Bool} {term 
 /-- role and cursor after a text placeholder that is not a ghost -/
 theorem roleOK_after_text {s : Src} {p1 stop : Nat} {nb : Bool} {term : Termination} {q : Nat}
     (hS : SliceN s p1 stop nb term q) (hlt : p1 < stop) (a ind : Nat) (role : TextPos)
-    (hg : isGhost a stop ind role = false) : RoleOK s (nxt s (.text a stop ind role)) (roleOf term) q := by
+    (hg : isGhost a stop ind role = false) : RoleOK s (nxt s (.text a stop ind role)) (pRoleOf term) q := by
   simp only [nxt, hg, Bool.false_eq_true, if_false]
   cases term with
   | lineFeed =>
     obtain ⟨_, h2, _, _⟩ := hS.lf rfl
-    simp [endsLF, h2, RoleOK, roleOf]
+    simp [endsLF, h2, RoleOK, pRoleOf]
   | crlf => exact absurd rfl hS.nocrlf
   | placeableStart =>
     obtain ⟨h1, h2, _, h4⟩ := hS.pl rfl
     have := h4 hlt
-    simp only [endsLF, beq_iff_eq, this, if_false, RoleOK, roleOf]
+    simp only [endsLF, beq_iff_eq, this, if_false, RoleOK, pRoleOf]
     subst h2
     exact ⟨trivial, Or.inl h1⟩
   | eof =>
     obtain ⟨h1, h2, _, h4⟩ := hS.eof rfl
     have := h4 hlt
-    simp only [endsLF, beq_iff_eq, this, if_false, RoleOK, roleOf]
+    simp only [endsLF, beq_iff_eq, this, if_false, RoleOK, pRoleOf]
     subst h2
     exact ⟨trivial, Or.inr (Nat.le_refl _)⟩
 
@@ -99,7 +99,7 @@ theorem step_mid {s : Src} (hcr : NoCR s) {r0 : TextPos} {st : PatState} {p : Na
     (hp : p < s.size) (h123 : s[p]? ≠ some 123) (hr : (st.role == .lineStart) = false)
     {start stop : Nat} {nb : Bool} {term : Termination} {q : Nat} {st2 : PatState}
     (hts : getTextSlice s p = .ok (start, stop, nb, term) q)
-    (h2 : st2Of s st p 0 start stop nb term = some st2) : PInv s r0 { st2 with role := roleOf term } q := by
+    (h2 : st2Of s st p 0 start stop nb term = some st2) : PInv s r0 { st2 with role := pRoleOf term } q := by
   obtain ⟨rfl, hS⟩ := sliceN hcr (Nat.le_of_lt hp) hts
   have hlt : start < stop := by
     cases term with
@@ -211,7 +211,7 @@ theorem step_blank {s : Src} {r0 : TextPos} {st : PatState} {p : Nat} (hI : PInv
     (hr : st.role = .lineStart) {indent p1 : Nat} (hp1 : p1 = skipBlankInline s p) (h10 : s[p1]? = some 10)
     {start stop : Nat} {nb : Bool} {term : Termination} {q : Nat} {st2 : PatState}
     (hst : start = p1) (hS : SliceN s p1 stop nb term q)
-    (h2 : st2Of s st p indent start stop nb term = some st2) : PInv s r0 { st2 with role := roleOf term } q := by
+    (h2 : st2Of s st p indent start stop nb term = some st2) : PInv s r0 { st2 with role := pRoleOf term } q := by
   obtain ⟨rfl, rfl, rfl, rfl⟩ := slice_at_nl hS h10
   subst hst
   have hE : endSt s (.first r0) st.elements = .afterNl := by
@@ -226,7 +226,7 @@ theorem step_blank {s : Src} {r0 : TextPos} {st : PatState} {p : Nat} (hI : PInv
     simpa using hI.ci
   · have : nxt s (.text start (start + 1) 0 st.role) = .afterNl := by
       simp [nxt, isGhost, endsLF, h10]
-    rw [this]; simp [RoleOK, roleOf]
+    rw [this]; simp [RoleOK, pRoleOf]
 
 /-- **the indentation in front of a placeable that starts a line** -/
 theorem step_ghost {s : Src} {r0 : TextPos} {st : PatState} {p : Nat} (hI : PInv s r0 st p)
@@ -234,7 +234,7 @@ theorem step_ghost {s : Src} {r0 : TextPos} {st : PatState} {p : Nat} (hI : PInv
     (hsp : ∀ j, p ≤ j → j < p1 → s[j]? = some 32) (h123 : s[p1]? = some 123)
     {start stop : Nat} {nb : Bool} {term : Termination} {q : Nat} {st2 : PatState}
     (hst : start = p1) (hS : SliceN s p1 stop nb term q)
-    (h2 : st2Of s st p indent start stop nb term = some st2) : PInv s r0 { st2 with role := roleOf term } q := by
+    (h2 : st2Of s st p indent start stop nb term = some st2) : PInv s r0 { st2 with role := pRoleOf term } q := by
   obtain ⟨rfl, rfl, rfl, rfl⟩ := slice_at_brace hS h123
   subst hst
   have hlt := get_lt h123
@@ -250,7 +250,7 @@ theorem step_ghost {s : Src} {r0 : TextPos} {st : PatState} {p : Nat} (hI : PInv
     rw [minL_snoc, ← hI.ci]
   · have : nxt s (.text p start indent st.role) = .afterGhost := by
       simp [nxt, isGhost, hr]; omega
-    rw [this]; simp [RoleOK, roleOf, h123]
+    rw [this]; simp [RoleOK, pRoleOf, h123]
 
 /-- **a line with content** -/
 theorem step_content {s : Src} (hcr : NoCR s) {r0 : TextPos} {st : PatState} {p : Nat} (hI : PInv s r0 st p)
@@ -259,7 +259,7 @@ theorem step_content {s : Src} (hcr : NoCR s) {r0 : TextPos} {st : PatState} {p 
     (h32 : b ≠ 32) (h10 : b ≠ 10) (h123 : b ≠ 123) (hcont : b ≠ 46 ∧ b ≠ 125 ∧ b ≠ 91 ∧ b ≠ 42)
     {start stop : Nat} {nb : Bool} {term : Termination} {q : Nat} {st2 : PatState}
     (hst : start = p1) (hS : SliceN s p1 stop nb term q)
-    (h2 : st2Of s st p indent start stop nb term = some st2) : PInv s r0 { st2 with role := roleOf term } q := by
+    (h2 : st2Of s st p indent start stop nb term = some st2) : PInv s r0 { st2 with role := pRoleOf term } q := by
   obtain ⟨hlt, rfl⟩ := slice_at_content hS hb h32 h10 h123
   subst hst
   have hne : (start == stop) = false := by simp; omega
@@ -285,7 +285,7 @@ theorem step_text {s : Src} (hcr : NoCR s) {r0 : TextPos} {st : PatState} {p : N
     (hp : p < s.size) (h123 : s[p]? ≠ some 123) {indent p1 : Nat} (hpre : preOf s st p = some (indent, p1))
     {start stop : Nat} {nb : Bool} {term : Termination} {q : Nat} {st2 : PatState}
     (hts : getTextSlice s p1 = .ok (start, stop, nb, term) q)
-    (h2 : st2Of s st p indent start stop nb term = some st2) : PInv s r0 { st2 with role := roleOf term } q := by
+    (h2 : st2Of s st p indent start stop nb term = some st2) : PInv s r0 { st2 with role := pRoleOf term } q := by
   rcases preOf_facts hcr hpre with ⟨hr, hp1, hind, b, hb, h32, hz, hpos⟩ | ⟨hr, rfl, rfl⟩
   · have hsz : p1 ≤ s.size := Nat.le_of_lt (get_lt hb)
     obtain ⟨hst, hS⟩ := sliceN hcr hsz hts
